@@ -7,6 +7,6 @@ Init == cell = None
 Next == cell = None /\ \E c \in PlanCells : cell' = c
 Spec == Init /\ [][Next]_cell
 
-WellFormed == cell # None => (InPlan(cell) /\ Key(cell, 1) \in (1..3) \X (0..65535) \X (1..15) \X (1..7) \X {1})
+WellFormed == cell # None => (InPlan(cell) /\ Key(cell, 1) \in (1..3) \X (0..65535) \X (1..Len(Ops)) \X (1..Len(Poss)) \X {1})
 Dump == cell # None => CSVWrite("%1$s", <<ToJson(cell)>>, "plan.ndjson")
 =============================================================================
